@@ -7,6 +7,18 @@ V = Path(__file__).resolve().parent.parent
 ALL = [f"C{i:02d}" for i in range(1, 21)]
 
 CHECKS = {
+    "C01": dict(
+        technique="Lean 4 proof: the digest pre-image is an injective, self-delimiting encoding of the structural content (framing lemmas over List Char, strong induction on tree size) + differential correspondence (pairs, recorded blake2b pre-images, splice attacks, second hash seed)",
+        text="Theorem cid_eq_iff: for every injective digest with no ':' in its output and all well-formed trees, cid a = cid b iff the "
+             "trees are content-equal (same class, same comparable (name, type text, value text) set, child fields pointwise content-equal; "
+             "absent != present); isEqual_iff; cid ignores uid/origin/truthiness/non-comparable props (cid_ignores) and the declaration "
+             "order of fields (cid_perm). Decided modulo digest collisions (blake2b idealised as injective). The model is tied to node.py by "
+             "(K2) comparing every recorded blake2b input with the model's cidInput/idInput, (K1) content_id/is_equal on generated pairs "
+             "vs the model and vs the statement evaluated on the specs, a separator-splice attack that learns the framing from an observed "
+             "pre-image, and rebuilding the same specs under another PYTHONHASHSEED. Lifetime clause (content_id never changes): see C10.",
+        note="Trusted: Lean kernel + 3 axioms; blake2b injective with hex output; CPython's type()/str() texts injective per type and "
+             "containing no '(' in the type text (validated on generated values); class names identify classes; model tied by correspondence.",
+        design="5/C01"),
     "C05": dict(
         technique="Lean 4 proof: implementation-shaped stack/deque/queue loops = recursive pre/post/level-order spec (induction on fuel/weight) + differential correspondence model vs real dfs/bfs/gather",
         text="Theorems (for every tree, every prune/filter, no size bound): dfsImpl = pre-order spec, bottom-up = post-order spec, "
